@@ -290,8 +290,18 @@ func (s *Solver) Model(vars []*Term) (Model, error) {
 	if len(vars) == 0 {
 		return m, nil
 	}
+	// only variables the solver already knows can be asked for (a declaration
+	// made now would sit inside the open frame and be popped with it); the
+	// others are unconstrained and default to zero.
+	var known []*Term
 	for _, v := range vars {
-		s.define(v)
+		if s.defined[v.ID] {
+			known = append(known, v)
+		}
+	}
+	vars = known
+	if len(vars) == 0 {
+		return m, nil
 	}
 	var sb strings.Builder
 	sb.WriteString("(get-value (")
